@@ -103,7 +103,7 @@ def run(ctx):
     # build-metadata variants of a few members must be Equal to the bare version
     extra = [s + rng.choice(["+x", "+1", "+0.a", "+b-1"]) for s in rng.sample(sub, 300)]
     strs, bad = cmpcommon.all_pairs(ctx, "semver", sub + extra, key, "small_universe")
-    large = random_large(rng, 5000 if quick else 14000) + boundary_families()
+    large = random_large(rng, 5000 if quick else 45000) + boundary_families()
     # numeric identifiers beyond u64: zerv may refuse them (then they are not versions and are left out), but whatever it
     # accepts as a version must obey the precedence rules
     big = []
@@ -132,7 +132,7 @@ def run(ctx):
     # max tag
     lists = []
     pool_ = sub + large + ["v1.2", "1.2.3.4", "release-1", "1.0.0-", "01.0.0", "latest", ""]
-    for _ in range(400 if quick else 6000):
+    for _ in range(400 if quick else 30000):
         k = rng.choice([1, 2, 3, 5, 9])
         tags = [rng.choice(pool_) for _ in range(k)]
         perm = tags[:]
